@@ -57,6 +57,15 @@ struct Sim {
   std::vector<FileFault> file_faults;
   std::vector<AccessFault> access_faults;
   bool record_opens{false};
+  // write(2) faults on control files: file basename -> {errno, remaining count (-1 = always), short write}
+  struct WriteFault {
+    std::string file;
+    int err{0};
+    int remaining{-1};
+    bool shortw{false};
+  };
+  std::vector<WriteFault> write_faults;
+  int xattr_get_errno{0}; // errno for fgetxattr/getxattr under the scratch root (0 = emulate normally)
   // event log
   std::mutex mu;
   uint64_t seq{0};
